@@ -192,6 +192,15 @@ def misc_laws(out):
             if (r.url.scheme, r.url.host, r.url.port, r.url.target) != (base.scheme, base.host, base.port, tgt) or r.url.origin != base.origin:
                 bad("target-extension", f"Request({u_!r}, target extension {tgt!r}).url = {r.url!r}, origin {r.url.origin}; expected only the target to change (origin {base.origin})",
                     {"url": u_, "target": tgt.decode()})
+    # a URL object handed to several requests is not theirs to change
+    for tgt in (b"/other", b"*"):
+        n += 1
+        shared = httpcore.URL("http://example.com:8080/mine?x=1")
+        r1 = httpcore.Request("GET", shared)
+        r2 = httpcore.Request("GET", shared, extensions={"target": tgt})
+        if (shared.target, r1.url.target, r2.url.target) != (b"/mine?x=1", b"/mine?x=1", tgt):
+            bad("shared-url-object", f"one URL object used for two requests, the second with the target extension {tgt!r}: afterwards the object says {shared.target!r}, "
+                f"the first request {r1.url.target!r}, the second {r2.url.target!r}", {"target": tgt.decode()})
     # content kinds: Host always first when synthesised; CL for bytes, TE for iterators, nothing for None,
     # nothing added when the caller supplied the header (any case)
     url = httpcore.URL("http://h:81/")
